@@ -484,6 +484,10 @@ func desugarIterators(pkgs []*packages.Package) (map[string][]byte, []string, ma
 			se, sn := selectedFuncValues(pk, f, content, file, &site)
 			edits = append(edits, se...)
 			notes = append(notes, sn...)
+			// calls through a package-level function variable that is never assigned (see constantFuncVars)
+			ce, cn := constantFuncVars(pk, f, fset)
+			edits = append(edits, ce...)
+			notes = append(notes, cn...)
 			if len(edits) > 0 {
 				out := applyEdits(content, 0, len(content), edits)
 				for path, local := range keepImport {
@@ -722,4 +726,131 @@ func isParamOrRecv(pk *packages.Package, file *ast.File, o *types.Var) bool {
 		}
 	}
 	return found
+}
+
+// constantFuncVars: the test seam `var sleep = time.Sleep` — an unexported package-level variable
+// of function type, initialised with the name of a function (local or imported) and assigned
+// nowhere in the package's shipped files (test files are not shipped), its address never taken —
+// denotes that function: every use in this file is read as the function's name. A use in a file
+// that does not import the function's package under the same name is left as it is.
+func constantFuncVars(pk *packages.Package, f *ast.File, fset *token.FileSet) ([]textEdit, []string) {
+	type seam struct {
+		init ast.Expr
+		text string
+		pkg  *types.Package // package of the function, nil when local
+		qual string         // the qualifier used in the initialiser
+	}
+	seams := map[types.Object]*seam{}
+	for _, file := range pk.Syntax {
+		for _, dcl := range file.Decls {
+			gd, ok := dcl.(*ast.GenDecl)
+			if !ok || gd.Tok != token.VAR {
+				continue
+			}
+			for _, sp := range gd.Specs {
+				vs, ok := sp.(*ast.ValueSpec)
+				if !ok || len(vs.Names) != 1 || len(vs.Values) != 1 || vs.Type != nil {
+					continue
+				}
+				obj := pk.TypesInfo.Defs[vs.Names[0]]
+				if obj == nil || obj.Exported() {
+					continue
+				}
+				if _, isSig := obj.Type().Underlying().(*types.Signature); !isSig {
+					continue
+				}
+				sm := &seam{init: vs.Values[0]}
+				switch e := vs.Values[0].(type) {
+				case *ast.Ident:
+					fo, ok := pk.TypesInfo.Uses[e].(*types.Func)
+					if !ok || fo.Type().(*types.Signature).Recv() != nil {
+						continue
+					}
+					sm.text = e.Name
+				case *ast.SelectorExpr:
+					x, ok := e.X.(*ast.Ident)
+					if !ok {
+						continue
+					}
+					pn, ok := pk.TypesInfo.Uses[x].(*types.PkgName)
+					if !ok {
+						continue
+					}
+					fo, ok := pk.TypesInfo.Uses[e.Sel].(*types.Func)
+					if !ok || fo.Type().(*types.Signature).Recv() != nil {
+						continue
+					}
+					sm.text, sm.pkg, sm.qual = x.Name+"."+e.Sel.Name, pn.Imported(), x.Name
+				default:
+					continue
+				}
+				seams[obj] = sm
+			}
+		}
+	}
+	if len(seams) == 0 {
+		return nil, nil
+	}
+	// any write or address-of in the shipped files disqualifies the variable
+	for _, file := range pk.Syntax {
+		ast.Inspect(file, func(n ast.Node) bool {
+			switch x := n.(type) {
+			case *ast.AssignStmt:
+				for _, l := range x.Lhs {
+					if id, ok := l.(*ast.Ident); ok {
+						if o := pk.TypesInfo.Uses[id]; o != nil {
+							delete(seams, o)
+						}
+					}
+				}
+			case *ast.UnaryExpr:
+				if x.Op == token.AND {
+					if id, ok := x.X.(*ast.Ident); ok {
+						if o := pk.TypesInfo.Uses[id]; o != nil {
+							delete(seams, o)
+						}
+					}
+				}
+			}
+			return true
+		})
+	}
+	if len(seams) == 0 {
+		return nil, nil
+	}
+	imported := map[string]string{} // local name → path, for this file
+	for _, im := range f.Imports {
+		path := strings.Trim(im.Path.Value, `"`)
+		name := path[strings.LastIndex(path, "/")+1:]
+		if im.Name != nil {
+			name = im.Name.Name
+		} else if pn := pk.TypesInfo.Implicits[im]; pn != nil {
+			name = pn.Name()
+		}
+		imported[name] = path
+	}
+	var edits []textEdit
+	var notes []string
+	noted := map[types.Object]bool{}
+	ast.Inspect(f, func(n ast.Node) bool {
+		id, ok := n.(*ast.Ident)
+		if !ok {
+			return true
+		}
+		o := pk.TypesInfo.Uses[id]
+		sm := seams[o]
+		if sm == nil {
+			return true
+		}
+		if sm.pkg != nil && imported[sm.qual] != sm.pkg.Path() {
+			return true
+		}
+		edits = append(edits, textEdit{fset.Position(id.Pos()).Offset, fset.Position(id.End()).Offset, sm.text})
+		if !noted[o] {
+			noted[o] = true
+			notes = append(notes, fmt.Sprintf("%s: the function variable %s (initialised to %s, assigned nowhere in shipped code) read as %s", fset.Position(id.Pos()), id.Name, sm.text, sm.text))
+		}
+		return true
+	})
+	return edits, notes
 }
